@@ -4,3 +4,4 @@ import UmapProps.C19
 import UmapProps.C20
 import UmapProps.C10
 import UmapProps.C07
+import UmapProps.C12
